@@ -95,7 +95,109 @@ func run(n int) string {
 	if r := late(n); r != "ok" {
 		return r
 	}
-	return fsidle(n)
+	if r := fsidle(n); r != "ok" {
+		return r
+	}
+	if r := twice(n); r != "ok" {
+		return r
+	}
+	return upgradeHold(n)
+}
+
+// twice: ONE service object served three times in a row with an idle timeout, on an abstract and on a filesystem address; every
+// serve must end with the timeout error and release its endpoint (a dial fails, the same address can be served again at once).
+func twice(n int) string {
+	dir, err := os.MkdirTemp("", "vclock2")
+	if err != nil {
+		return "twice: " + err.Error()
+	}
+	defer os.RemoveAll(dir)
+	for _, kind := range []string{"abstract", "fs"} {
+		svc, _ := varlink.NewService("v", "p", "1", "u")
+		name := fmt.Sprintf("@vrf-clock-twice-%d-%d", os.Getpid(), n)
+		if kind == "fs" {
+			name = fmt.Sprintf("%s/t%d.sock", dir, n)
+		}
+		for round := 1; round <= 3; round++ {
+			done, _ := serve(svc, "unix:"+name, 200*time.Millisecond)
+			select {
+			case e := <-done:
+				var te varlink.ServiceTimeoutError
+				if !errors.As(e, &te) {
+					return fmt.Sprintf("twice(%s) serve %d: expected the timeout error, got %v", kind, round, e)
+				}
+			case <-time.After(4 * time.Second):
+				svc.Shutdown()
+				return fmt.Sprintf("twice(%s) serve %d: an idle service with a 200 ms timeout was still serving after 4 s", kind, round)
+			}
+			if c, err := net.Dial("unix", name); err == nil {
+				c.Close()
+				return fmt.Sprintf("twice(%s) serve %d: after the timeout exit a connection attempt still succeeds (listener left open)", kind, round)
+			}
+		}
+	}
+	return "ok"
+}
+
+type upIface struct{}
+
+func (upIface) VarlinkGetName() string        { return "a.b" }
+func (upIface) VarlinkGetDescription() string { return "interface a.b\nmethod Up() -> ()" }
+func (upIface) VarlinkDispatch(ctx context.Context, c varlink.Call, m string) error {
+	return c.Reply(ctx, nil)
+}
+
+// upgradeHold: a client makes a call with the upgrade flag, gets its reply and stays connected over several timeout periods: the
+// service must not stop while that connection is open, and must stop once it is closed.
+func upgradeHold(n int) string {
+	const T = 200 * time.Millisecond
+	var svc *varlink.Service
+	var done chan error
+	var c net.Conn
+	var err error
+	for attempt := 0; attempt < 5; attempt++ {
+		svc, _ = varlink.NewService("v", "p", "1", "u")
+		svc.RegisterInterface(upIface{})
+		name := fmt.Sprintf("@vrf-clock-up-%d-%d-%d", os.Getpid(), n, attempt)
+		done, _ = serve(svc, "unix:"+name, T)
+		if c, err = net.Dial("unix", name); err == nil {
+			break
+		}
+		svc.Shutdown()
+		select {
+		case <-done:
+		case <-time.After(2 * time.Second):
+		}
+	}
+	if err != nil {
+		return "upgradeHold: could not connect in five attempts: " + err.Error()
+	}
+	c.SetDeadline(time.Now().Add(5 * time.Second))
+	if _, err := c.Write([]byte("{\"method\":\"a.b.Up\",\"upgrade\":true}\x00")); err != nil {
+		return "upgradeHold: write: " + err.Error()
+	}
+	if _, err := bufio.NewReader(c).ReadBytes(0); err != nil {
+		return "upgradeHold: no reply to the upgrade call: " + err.Error()
+	}
+	c.SetDeadline(time.Time{})
+	select {
+	case e := <-done:
+		c.Close()
+		return fmt.Sprintf("upgradeHold: the service stopped (%v) while the client of an upgraded call was still connected", e)
+	case <-time.After(5 * T):
+	}
+	c.Close()
+	select {
+	case e := <-done:
+		var te varlink.ServiceTimeoutError
+		if !errors.As(e, &te) {
+			return fmt.Sprintf("upgradeHold: expected the timeout error, got %v", e)
+		}
+	case <-time.After(4 * time.Second):
+		svc.Shutdown()
+		return "upgradeHold: the service did not time out within 4 s after the connection ended"
+	}
+	return "ok"
 }
 
 // fsidle: the same on a filesystem socket path and on TCP (other listener types than the abstract socket above): an idle service
